@@ -156,7 +156,7 @@ func c07xGenQuery(r *h.Rng, maxStages int) string {
 		}
 	}
 	if r.Chance(15) {
-		sb.WriteString(" " + h.Pick(r, []string{"| json", "| logfmt", "| line_format \"{{.a}}\""}))
+		sb.WriteString(" " + h.Pick(r, []string{"| json", "| logfmt", "| line_format \"{{.a}}\"", "| label_format x=\"c\"", "| label_format lvl=level, x=\"{{.a}}\""}))
 		for i := r.Intn(3); i > 0; i-- {
 			if r.Chance(50) {
 				sb.WriteString(" " + c07xGenChanger(r))
@@ -291,6 +291,8 @@ func c07xSerStage(p *logql_parser.StrSelectorPipeline) (string, error) {
 		return "I:logfmt", nil
 	case p.LineFormat != nil:
 		return "I:line_format", nil
+	case p.LabelFormat != nil:
+		return "I:label_format", nil
 	case p.Parser != nil && p.Parser.Fn == "json":
 		s, err := c07xSerJSONParams(p.Parser)
 		if err != nil {
